@@ -718,6 +718,13 @@ class IRSpec:
         def with_dom(s, dom):
             if dom[0] == 'enumcls':
                 return self.unroll_enum(se, s, node, dom, nxt, k_ret)
+            if dom[0] == 'tuple':               # for key in ["EDIF.identifier", ".NAME"]: a literal sequence is unrolled
+                items = dom[1]
+                def go(s2, idx):
+                    if idx == len(items): return nxt(s2)
+                    s2.env = dict(s2.env); self.bind_target(s2, node.target, items[idx])
+                    se.block(s2, node.body, lambda s3: go(s3, idx + 1), k_ret, lambda s3: nxt(s3), lambda s3: go(s3, idx + 1))
+                return go(s, 0)
             spec = LOOPS.get((fr.fi.qual, ordinal))
             if spec is None and getattr(self, 'pure_loops', False) and dom[0] in ('zip', 'list', 'range'):
                 return self.pure_loop(se, s, node, dom, nxt, k_ret)
